@@ -288,6 +288,33 @@ def _rx_labels(expr):
     return sorted(out)
 
 
+def _equals_ctx_labels(expr):
+    """which of the comparison strategies of `equals` an expression can reach: the model is a whole text (a file
+    in the CLI layer) or one line (a string in memory); the operand is a file or a string"""
+    out = set()
+
+    def visit(node, in_line):
+        if not (isinstance(node, list) and node and isinstance(node[0], str)):
+            return
+        tag = node[0]
+        if tag == 'equals':
+            out.add('equals-ctx:%s-model/%s-operand' % ('line' if in_line else 'text',
+                                                        'file' if node[1]['form'] == 'file' else 'string'))
+            if node[1].get('tr') is not None:
+                visit(node[1]['tr'], in_line)
+        elif tag == 'contents':
+            visit(node[1], True)
+        elif tag == 'replace':
+            if node[1].get('at') is not None:
+                visit(node[1]['at'], in_line)
+        else:
+            for x in node[1:]:
+                visit(x, in_line)
+
+    visit(expr, False)
+    return sorted(out)
+
+
 def _expr_labels(expr, prefix):
     tags = ref.tags(expr)
     ls = sorted({'%s:%s' % (prefix, t) for t in tags})
@@ -308,7 +335,7 @@ def _expr_labels(expr, prefix):
             ls.append('strip:%s' % (node[1] or 'both'))
     n = len(tags)
     ls.append('%s-size:%s' % (prefix, '1' if n == 1 else '2-3' if n <= 3 else '4-7' if n <= 7 else '8+'))
-    return sorted(set(ls)) + _rx_labels(expr)
+    return sorted(set(ls)) + _rx_labels(expr) + _equals_ctx_labels(expr)
 
 
 def _nontrivial(text, expr, prims):
@@ -325,32 +352,66 @@ def _clip(s, n=400):
 # ======================================================================================================
 # CLI layer: matcher verdict
 # ======================================================================================================
-MATCHER_SOURCES = ['file', 'file', 'file', 'act', 'act', 'act', 'lit_str', 'lit_here', 'prog']
+MATCHER_SOURCES = ['file', 'file', 'file', 'act', 'act', 'act', 'act_err', 'act_file', 'lit_str', 'lit_here', 'prog',
+                   'prog_err', 'file_matcher']
+SOURCE_KIND = {'file': 'file', 'file_matcher': 'file', 'act': 'action-output', 'act_err': 'action-output',
+               'act_file': 'action-output', 'prog': 'program-output', 'prog_err': 'program-output',
+               'prog_shell': 'program-output', 'prog_exe': 'program-output', 'stdin': 'file',
+               'text_source_symbol': 'file', 'lit_str': 'literal', 'lit_here': 'literal'}
+MATCHER_SYMBOL = 'MY_TEXT_MATCHER'
+TRANSFORMER_SYMBOL = 'MY_TEXT_TRANSFORMER'
+
+
+def _effective_source(case):
+    src, text = case['src'], case['text']
+    if src == 'lit_here' and not (text == '' or text.endswith('\n')):
+        return 'lit_str'  # a here-document always ends with a new-line
+    return src
 
 
 def build_matcher_case(case):
     """-> (files: name -> str | bytes, case text)"""
-    text, m, src, style = case['text'], case['m'], case['src'], case.get('style', 0)
-    m_src, files = c05_expr.render_tm(m, style)
+    text, m, style = case['text'], case['m'], case.get('style', 0)
+    src = _effective_source(case)
+    via_symbol = bool(case.get('sym'))
+    # "stdout -from PROGRAM TEXT-MATCHER: TEXT-MATCHER must appear on a separate line".  A matcher that begins
+    # with -transformed-by is put inside parentheses there: on the line after a PROGRAM, "-transformed-by T" is
+    # the program's own TRANSFORMATION-OF-OUTPUT (help syntax PROGRAM)
+    m_src, files = c05_expr.render_tm(m, style,
+                                      after_program=(src in ('prog', 'prog_err') and not via_symbol),
+                                      simple=(src == 'file_matcher' and not via_symbol))
     files = dict(files)
     setup, act, assert_ = [], [], []
-    if src == 'lit_here' and not (text == '' or text.endswith('\n')):
-        src = 'lit_str'
+    if via_symbol:
+        # def TYPE SYMBOL-NAME = VALUE: "The defined symbol is available in all following instructions and phases"
+        setup.append('def text-matcher %s = %s' % (MATCHER_SYMBOL, m_src))
+        m_src = MATCHER_SYMBOL
     if src == 'file':
         files['in.txt'] = text.encode('utf-8')
         assert_.append('contents -rel-home in.txt : ' + m_src)
+    elif src == 'file_matcher':
+        # FILE-MATCHER "contents TEXT-MATCHER: Matches regular files who's contents satisfies TEXT-MATCHER"
+        files['in.txt'] = text.encode('utf-8')
+        assert_.append('exists -rel-home in.txt : contents ' + m_src)
     elif src == 'act':
         files['in.txt'] = text.encode('utf-8')
         act.append('$ cat {HOME}/in.txt')
         assert_.append('stdout ' + m_src)
-    elif src == 'prog':
-        # "stdout -from PROGRAM TEXT-MATCHER: TEXT-MATCHER must appear on a separate line"
-        # A matcher that begins with -transformed-by is put inside parentheses: on the line after a PROGRAM,
-        # "-transformed-by T" is the program's own TRANSFORMATION-OF-OUTPUT (help syntax PROGRAM)
+    elif src == 'act_err':
         files['in.txt'] = text.encode('utf-8')
-        if m_src.startswith('-transformed-by'):
-            m_src = '( ' + m_src + ' )'
+        act.append('$ cat {HOME}/in.txt >&2')
+        assert_.append('stderr ' + m_src)
+    elif src == 'act_file':
+        # a file written by the action to check (current directory = act directory)
+        files['in.txt'] = text.encode('utf-8')
+        act.append('$ cat {HOME}/in.txt > made.txt')
+        assert_.append('contents made.txt : ' + m_src)
+    elif src == 'prog':
+        files['in.txt'] = text.encode('utf-8')
         assert_.append('stdout -from $ cat {HOME}/in.txt\n    ' + m_src)
+    elif src == 'prog_err':
+        files['in.txt'] = text.encode('utf-8')
+        assert_.append('stderr -from $ cat {HOME}/in.txt >&2\n    ' + m_src)
     elif src == 'lit_str':
         setup.append('file lit.txt = ' + c05_expr.hard_quoted(text))
         assert_.append('contents lit.txt : ' + m_src)
@@ -368,6 +429,12 @@ def build_matcher_case(case):
     return files, '\n'.join(lines) + '\n'
 
 
+def _source_labels(case):
+    src = _effective_source(case)
+    return ['source:' + src, 'source-kind:' + SOURCE_KIND[src], 'layer:cli',
+            'expr-via:' + ('symbol' if case.get('sym') else 'inline')]
+
+
 def check_cli_matcher(case) -> Verdict:
     text, m = case['text'], case['m']
     expected = ref.eval_tm(m, text)
@@ -380,7 +447,7 @@ def check_cli_matcher(case) -> Verdict:
             r = driver.run_subproc(ws, ['t.case'])
         else:
             r = driver.run_inproc(ws, ['t.case'])
-    labels = ['source:' + case['src'], 'expected:' + ('PASS' if expected else 'FAIL')]
+    labels = _source_labels(case) + ['expected:' + ('PASS' if expected else 'FAIL')]
     if case.get('subproc'):
         labels.append('run:sub-process')
     labels += _text_labels(text) + _expr_labels(m, 'tm')
@@ -416,32 +483,54 @@ def check_cli_matcher(case) -> Verdict:
 # ======================================================================================================
 # CLI layer: transformer output
 # ======================================================================================================
-TRANSFORMER_SOURCES = ['file', 'file', 'lit_str', 'lit_here', 'prog_shell', 'prog_exe']
+TRANSFORMER_SOURCES = ['file', 'file', 'lit_str', 'lit_here', 'prog_shell', 'prog_exe', 'prog_err', 'stdin',
+                       'text_source_symbol']
 
 
 def build_transformer_case(case):
-    text, tr, src, style = case['text'], case['tr'], case['src'], case.get('style', 0)
-    tr_src, files = c05_expr.render_tr(tr, style)
+    """-> (files, case text).  The case creates act/out.txt, whose expected contents is the transformed text."""
+    text, tr, style = case['text'], case['tr'], case.get('style', 0)
+    src = _effective_source(case)
+    via_symbol = bool(case.get('sym'))
+    tr_src, files = c05_expr.render_tr(tr, style, simple=not via_symbol)
     files = dict(files)
-    if src == 'lit_here' and not (text == '' or text.endswith('\n')):
-        src = 'lit_str'
+    setup, act = [], []
+    if via_symbol:
+        setup.append('def text-transformer %s = %s' % (TRANSFORMER_SYMBOL, tr_src))
+        tr_src = TRANSFORMER_SYMBOL
     if src == 'file':
         files['in.txt'] = text.encode('utf-8')
-        instr = 'file out.txt = -contents-of -rel-home in.txt -transformed-by ' + tr_src
+        setup.append('file out.txt = -contents-of -rel-home in.txt -transformed-by ' + tr_src)
     elif src == 'lit_str':
-        instr = 'file out.txt = %s -transformed-by %s' % (c05_expr.hard_quoted(text), tr_src)
+        setup.append('file out.txt = %s -transformed-by %s' % (c05_expr.hard_quoted(text), tr_src))
     elif src == 'lit_here':
-        instr = 'file out.txt = <<%s\n%s%s\n    -transformed-by %s' % (c05_expr.HERE_MARKER, text,
-                                                                      c05_expr.HERE_MARKER, tr_src)
+        setup.append('file out.txt = <<%s\n%s%s\n    -transformed-by %s' % (c05_expr.HERE_MARKER, text,
+                                                                          c05_expr.HERE_MARKER, tr_src))
     elif src == 'prog_shell':
         files['in.txt'] = text.encode('utf-8')
-        instr = 'file out.txt = -stdout-from $ cat {HOME}/in.txt\n    -transformed-by ' + tr_src
+        setup.append('file out.txt = -stdout-from $ cat {HOME}/in.txt\n    -transformed-by ' + tr_src)
     elif src == 'prog_exe':
         files['in.txt'] = text.encode('utf-8')
-        instr = 'file out.txt = -stdout-from % cat {HOME}/in.txt\n    -transformed-by ' + tr_src
+        setup.append('file out.txt = -stdout-from % cat {HOME}/in.txt\n    -transformed-by ' + tr_src)
+    elif src == 'prog_err':
+        files['in.txt'] = text.encode('utf-8')
+        setup.append('file out.txt = -stderr-from $ cat {HOME}/in.txt >&2\n    -transformed-by ' + tr_src)
+    elif src == 'stdin':
+        # the transformed text is the stdin of the action to check, which copies it to act/out.txt
+        files['in.txt'] = text.encode('utf-8')
+        setup.append('stdin = -contents-of -rel-home in.txt -transformed-by ' + tr_src)
+        act.append('$ cat > out.txt')
+    elif src == 'text_source_symbol':
+        # TEXT-SOURCE: "SYMBOL-REFERENCE: A reference to a symbol defined as either text-source or string"
+        files['in.txt'] = text.encode('utf-8')
+        setup.append('def text-source MY_TEXT_SOURCE = -contents-of -rel-home in.txt -transformed-by ' + tr_src)
+        setup.append('file out.txt = @[MY_TEXT_SOURCE]@')
     else:
         raise ValueError(src)
-    return files, '[setup]\n' + instr + '\n'
+    lines = ['[setup]'] + setup
+    if act:
+        lines += ['[act]'] + act
+    return files, '\n'.join(lines) + '\n'
 
 
 def check_cli_transformer(case) -> Verdict:
@@ -459,8 +548,8 @@ def check_cli_transformer(case) -> Verdict:
             if os.path.isfile(p):
                 with open(p, 'rb') as f:
                     produced = f.read()
-    labels = ['source:' + case['src'], 'output:' + ('unchanged' if expected == text else
-                                                    'empty' if expected == '' else 'changed')]
+    labels = _source_labels(case) + ['output:' + ('unchanged' if expected == text else
+                                                  'empty' if expected == '' else 'changed')]
     labels += _text_labels(text) + _expr_labels(tr, 'tr')
     nontrivial = _nontrivial(text, tr, _PRIMS_TR)
     key = _key(text, tr, case['src'])
@@ -607,7 +696,8 @@ def check_api(case) -> Verdict:
     style = case.get('style', 0)
     api = _Api.get()
     d, home, tcds, env, fac = api.new_case()
-    labels = ['api:text'] + _text_labels(text)
+    labels = ['api:text', 'layer:api', 'api-model:string', 'api-model:file', 'source-kind:literal',
+              'source-kind:file'] + _text_labels(text)
     keys = []
     written = ['model.txt']
     try:
@@ -699,16 +789,28 @@ def _api_fail(bucket, detail, labels, keys):
 _style = st.integers(0, 10 ** 6)
 
 
-@st.composite
-def _matcher_cases(draw):
-    text, m = draw(c05_expr.matcher_on_text())
-    return {'text': text, 'm': m, 'src': draw(st.sampled_from(MATCHER_SOURCES)), 'style': draw(_style)}
+_via_symbol = st.sampled_from([False, False, False, False, False, True])
+
+
+def _dims(tier):
+    """(max number of lines of the text, node budget of the expression)"""
+    return (6, c05_expr.NODE_BUDGET) if tier == 'quick' else (10, 12)
 
 
 @st.composite
-def _transformer_cases(draw):
-    text, tr = draw(c05_expr.transformer_on_text())
-    return {'text': text, 'tr': tr, 'src': draw(st.sampled_from(TRANSFORMER_SOURCES)), 'style': draw(_style)}
+def _matcher_cases(draw, tier='quick'):
+    max_lines, nodes = _dims(tier)
+    text, m = draw(c05_expr.matcher_on_text(max_lines, nodes))
+    return {'text': text, 'm': m, 'src': draw(st.sampled_from(MATCHER_SOURCES)), 'style': draw(_style),
+            'sym': draw(_via_symbol)}
+
+
+@st.composite
+def _transformer_cases(draw, tier='quick'):
+    max_lines, nodes = _dims(tier)
+    text, tr = draw(c05_expr.transformer_on_text(max_lines, nodes))
+    return {'text': text, 'tr': tr, 'src': draw(st.sampled_from(TRANSFORMER_SOURCES)), 'style': draw(_style),
+            'sym': draw(_via_symbol)}
 
 
 @st.composite
@@ -723,10 +825,11 @@ N_API_TRANSFORMERS = 4
 
 
 @st.composite
-def _api_cases(draw):
-    text = c05_text.draw_text(draw)
-    ms = [c05_expr.draw_tm(draw, text, 0, [c05_expr.NODE_BUDGET]) for _ in range(N_API_MATCHERS)]
-    trs = [c05_expr.draw_tr(draw, text, 0, [c05_expr.NODE_BUDGET]) for _ in range(N_API_TRANSFORMERS)]
+def _api_cases(draw, tier='quick'):
+    max_lines, nodes = _dims(tier)
+    text = c05_text.draw_text(draw, max_lines)
+    ms = [c05_expr.draw_tm(draw, text, 0, [nodes]) for _ in range(N_API_MATCHERS)]
+    trs = [c05_expr.draw_tr(draw, text, 0, [nodes]) for _ in range(N_API_TRANSFORMERS)]
     return {'text': text, 'ms': ms, 'trs': trs, 'style': draw(_style)}
 
 
@@ -764,7 +867,7 @@ def _edge_cases(tier):
 
 def _edge_cases_tr(tier):
     texts = ['', '\n', 'a', 'a\n', 'a\nb', 'a\nb\n', '\n\n', ' a \n', 'a\n\n', '\na', ' \n\t\n', '  a\n \n', 'a \n \n ',
-             'ab\nab\nAB\n']
+             'ab\nab\nAB\n', 'a\n\n\n', '\n\n\na\n\n\nb\n\n\n', ' \n\n \n\n', 'a\n\n\n ', '\t\n \n a \n\t\n \n']
     rx_a = {'pat': 'a', 'ic': False, 'groups': 0}
     trs = [['identity'], ['strip', None], ['strip', 'space'], ['strip', 'nl'], ['char-case', 'upper'],
            ['replace', {'pnl': False, 'at': None, 'rx': rx_a, 'repl': 'X'}],
@@ -788,11 +891,11 @@ SUBS = [
     Sub('cli_matcher_edge', check_cli_matcher, enumerate=_edge_cases, exhaustive=True, render=_render_matcher_sample),
     Sub('cli_transformer_edge', check_cli_transformer, enumerate=_edge_cases_tr, exhaustive=True,
         render=_render_transformer_sample),
-    Sub('cli_matcher', check_cli_matcher, strategy=lambda tier: _matcher_cases(),
+    Sub('cli_matcher', check_cli_matcher, strategy=lambda tier: _matcher_cases(tier),
         budget={'quick': 6000, 'thorough': 150000}, render=_render_matcher_sample),
-    Sub('cli_transformer', check_cli_transformer, strategy=lambda tier: _transformer_cases(),
+    Sub('cli_transformer', check_cli_transformer, strategy=lambda tier: _transformer_cases(tier),
         budget={'quick': 4000, 'thorough': 100000}, render=_render_transformer_sample),
-    Sub('api_pairs', check_api, strategy=lambda tier: _api_cases(),
+    Sub('api_pairs', check_api, strategy=lambda tier: _api_cases(tier),
         budget={'quick': 5000, 'thorough': 150000}),
     # the same check through a real OS process (guards against artefacts of the in-process harness)
     Sub('cli_matcher_subprocess', check_cli_matcher, strategy=lambda tier: _subproc_cases(),
